@@ -343,6 +343,8 @@ def assemble_spend(case, sighash_mode="btc"):
     tx0 = build_tx(case)
 
     def z_fn(ht, cs):
+        if cs < 0:
+            cs = -cs - 1      # (see below) "signed like a copy the lock pushes itself": same digest as an embedded one
         if shape in ("p2wpkh", "p2sh-p2wpkh"):
             code = lock_script
         else:
@@ -364,7 +366,11 @@ def assemble_spend(case, sighash_mode="btc"):
         def z_fn(ht, cs):
             # signatures supplied by the unlocking side sign the lock script as it really is, i.e. including any
             # signature the lock script pushes itself (consensus FindAndDelete removes only the signature being
-            # checked); z_embedded above is for those embedded ones, whose digest excludes their own push
+            # checked); z_embedded above is for those embedded ones, whose digest excludes their own push.  A negative cs
+            # -(n+1) asks for exactly that digest (after n separators) for a signature the unlocking side supplies: the
+            # byte-identical copy of a signature that the lock script also pushes
+            if cs < 0:
+                return z_embedded(ht, cs)
             after = code_after_separators(lock_tokens, cs)
             prefix = len(render(lock_tokens[:len(lock_tokens) - len(after)], z_embedded))
             code = rendered_lock[prefix:]
